@@ -103,6 +103,11 @@ CHECKS = {
         'note': 'trusted: the grammar transcription and lexer in vf/props/c05.py, vf/ref/formula.py; a text inside the grammar that the ordered-choice parser rejects with the parser exception is counted, not asserted; texts whose lexing the transcription does not pin down are only checked for foreign exceptions',
         'technique': 'Hypothesis grammar-based generation + token/character mutation fuzzing vs independent recogniser (differential accept/reject), reference evaluator and metamorphic whitespace / separator relations',
     },
+    'C06': {
+        'text': 'Hypothesis workbooks (1-4 sheets, titles and texts from hostile alphabets: quotes, backslashes, newlines, braces, format fields, %, unicode; constants of every type openpyxl writes incl. huge / tiny / infinite numbers, dates, times, durations, error strings, ArrayFormula; valid formulas of the whole supported grammar; in the adversarial lane malformed / unsupported / truncated / token-soup formulas, missing sheets, row-0 and over-long references, cycles) translated whole-file and through every formula cell as entry point; a list of ~130 hand-picked hostile formulas; 17 size-parameterised families (bracket depth 40, nested SUM / IF / mixed calls, operator / sign / & chains, argument counts, forward and backward reference chains across cells, long literals, wide areas).  Outcome must be a library exception or text that compiles, loads, reports the titles and sizes of the workbook, has one callable member per non-blank cell, evaluates without NameError / SyntaxError, gives the stored value for constants and the same outcome through Executor(class_file=...) and Executor(class_object=...); a deterministic work counter (calls into the repository under sys.setprofile) must grow by less than x1.7 per size step',
+        'note': 'trusted: python compile / exec, openpyxl as the judge of what a file holds; evaluation errors of a formula are not judged (only NameError / SyntaxError / UnboundLocalError); an alarm that fires is inconclusive - non-termination is represented only by the work-growth bound on the families',
+        'technique': 'Hypothesis structured + adversarial workbook fuzzing with outcome classification; size-parameterised families with a deterministic work counter',
+    },
 }
 ALL = ['C%02d' % i for i in range(1, 21)]
 for p in ALL:
